@@ -613,7 +613,7 @@ example : ∃ fuel₀, ∀ fuel, fuel₀ ≤ fuel →
 
   The expressions of assignments, initialisers, expression statements and `return` may read array elements and
   call functions (`CSem2.Expr3`: `a[i]` and `f(args)` with pure index / arguments, nested freely under casts,
-  unary minus, binary operators, `&&`, `||`, `?:` — except an array read inside the first operand of `?:`,
+  unary minus, binary operators, `&&`, `||`, `?:`, the comma operator — except an array read inside the first operand of `?:`,
   which `condexpr` would constant-fold).  A callee cannot touch the objects of its caller, so evaluation
   stays free of side effects (`CSem2.evalE3` with the function `callOf` for the calls). -/
 
@@ -694,6 +694,36 @@ example : ∃ fuel₀, ∀ fuel, fuel₀ ≤ fuel →
       match i, ht, hv with
       | 0, ht, hv => cases ht; cases hv; decide⟩
     (by decide) (by decide) 30 (by decide)
+
+/-! ## The comma operator and `sizeof`
+
+  `(a, b)` (`CSem2.Expr3.comma`, 6.5.17): `a` is evaluated and discarded — so it must be defined —, the result
+  is `b`; `funcexpr` lowers the operands in order and returns the last value.  `sizeof` of an object or a type
+  is a constant of type `unsigned long` after parsing (its operand is not evaluated): it needs no constructor,
+  the generator writes `sizeof x` in the C text and the constant in the tree. -/
+
+/-- `int f(int x) { return (7 / x, x + 1); }` -/
+def ex13 : CSem2.Func :=
+  { name := "cm", ret := .int, params := [.int], locals := [],
+    body := .ret (.comma .int (.bin .div .int (.const .int 7) (.param .int 0))
+      (.bin .add .int (.param .int 0) (.const .int 1))) }
+example : CSem2.WT ex13 := by decide
+example : CSem2.runC true 10 ex13 [2] = some 3 := by decide
+/-- the discarded operand divides by zero -/
+example : CSem2.runC true 10 ex13 [0] = none := by decide
+
+/-- the theorem applied to `ex13` -/
+example : ∃ fuel₀, ∀ fuel, fuel₀ ≤ fuel →
+    runFunc (prog (Lower2.emitFunc true 0 ex13)) noExt "cm" (argsOf ex13.params [2]) fuel =
+      ⟨#[], .ret (.scalar ⟨.w, 3⟩)⟩ := by
+  have hval : (argOf ex13.ret 3).2 = ⟨.w, 3⟩ := by decide
+  rw [← hval]
+  exact lower2_correct_exact true 0 ex13 [2] 3 noExt (by decide) rfl
+    ⟨rfl, by
+      intro i t v ht hv
+      match i, ht, hv with
+      | 0, ht, hv => cases ht; cases hv; decide⟩
+    (by decide) (by decide) 10 (by decide)
 
 /-! ## Read-only array parameters
 
